@@ -70,7 +70,7 @@ let parse_pathspec (s : string) : pathspec =
   | [k; steps] ->
       let steps = if steps = "" then [] else split_on ',' steps in
       { ps_fs = nat_of_int (int_of_string k);
-        ps_steps = List.map (fun st -> if st = "p" then JParent else JJoin (unhex (String.sub st 1 (String.length st - 1)))) steps }
+        ps_steps = List.map (fun st -> if st = "p" then JParent else if st = "r" then JRoot else JJoin (unhex (String.sub st 1 (String.length st - 1)))) steps }
   | _ -> failwith ("bad pathspec " ^ s)
 
 let parse_op (toks : string list) : op =
